@@ -15,6 +15,7 @@ import (
 	"time"
 
 	"github.com/apache/skywalking-banyandb/pkg/pipeline/sdk"
+	"github.com/apache/skywalking-banyandb/pkg/pipeline/sdk/sdktest"
 )
 
 // VerifC13 handles one protocol line.
@@ -347,7 +348,7 @@ func c13Mask(m []bool) string {
 }
 
 // ch <n> <mode: eval|exec> <cbN> <rounds> <spec>;<spec>...
-//   eval : sdk.EvaluateChain (shared chain semantics)
+//   eval : sdktest.RunChain = sdk.EvaluateChain (shared chain semantics)
 //   exec : mergeChain.Execute through the worker goroutine, timeout and circuit breaker, `rounds` times
 func verifC13Chain(f []string) string {
 	n := int(c13Int(f[0]))
@@ -369,10 +370,12 @@ func verifC13Chain(f []string) string {
 		batch.Traces[i].TraceID = strconv.Itoa(i)
 	}
 	if mode == "eval" {
+		// the offline harness of the plugin SDK: same sdk.EvaluateChain the engine's merge chain runs
 		var by []string
-		v := sdk.EvaluateChain(samplers, batch, func(idx int, info sdk.BypassInfo) {
-			by = append(by, fmt.Sprintf("%d:%s", idx, info.Reason))
-		})
+		v, report := sdktest.RunChain(samplers, batch)
+		for _, b := range report.Bypassed {
+			by = append(by, fmt.Sprintf("%d:%s", b.Idx, b.Reason))
+		}
 		if len(by) == 0 {
 			by = []string{"-"}
 		}
@@ -382,7 +385,7 @@ func verifC13Chain(f []string) string {
 	defer mc.close()
 	var out []string
 	for r := 0; r < rounds; r++ {
-		v, err := mc.Execute(batch, 30*time.Millisecond)
+		v, err := mc.Execute(batch, 250*time.Millisecond)
 		e := "ok"
 		if err != nil {
 			e = err.Error()
